@@ -188,8 +188,6 @@ func (x *Exec) jsonContainerFacts(st *State, v *Value) {
 		}
 		return
 	case KSlice:
-		x.jsonFreshUsed = true
-		x.facts = append(x.facts, Or(Eq(v.Ref, x.null()), x.ctx.App("jsonFresh", BoolSort, v.Ref)))
 		return
 	}
 	if _, isMap := under(v.T).(*types.Map); isMap && v.Term != nil {
